@@ -490,8 +490,10 @@ func (fr *frame) visit(instr ssa.Instruction) continuation {
 		fn, args := fr.prepareCall(&instr.Call, instr)
 		defers := &fr.defers
 		if instr.DeferStack != nil {
-			if into := fr.get(instr.DeferStack); into != nil {
-				unsupported("defer stack (range-over-func)")
+			if ref, ok := fr.get(instr.DeferStack).(*deferStackRef); ok && ref != nil {
+				defers = &ref.fr.defers
+			} else {
+				unsupported("defer stack of unknown kind")
 			}
 		}
 		*defers = &deferred{fn: fn, args: args, instr: instr, tail: *defers}
